@@ -177,3 +177,83 @@ def _suffix(vc, n_out):
 
 for _n in (1, 2, 3):
     obligation(f"C02.build_folded_graph.suffix.outputs{_n}", "C02", [f"{FO}:build_folded_graph"])((lambda n: lambda vc: _suffix(vc, n))(_n))
+
+
+# ------------------------------------------------------------------------------------------------ build_unfold_index_info (no folding)
+def _ustep(vc, arity, folds_ok):
+    """ONE iteration from an arbitrary counter value: module k located at (k, 0); its table is ONE row listing the locations of its inputs in
+    order (empty row for an input module); the counter advances by one; a module that is already folded (num_folds > 1) is refused"""
+    mk = lambda n: Opaque(n, {"__identity_eq__": True})
+    m = mk("m")
+    nf = vc.int("num_folds", lo=1)
+    m.attrs["num_folds"] = lambda o: nf
+    ins = [mk(f"in{j}") for j in range(arity)]
+    cur = vc.int("cur_module_id", lo=0)
+    known, locs = {m: ABSENT}, []
+    for x in ins:
+        f, s = vc.int(f"fold_of_{x.name}", lo=0), vc.int(f"slice_of_{x.name}", lo=0)
+        known[x] = (f, s)
+        locs.append((f, s))
+    fold_idx, in_fold_idx = GuardedMap("fold_idx", known), GuardedMap("in_fold_idx", {})
+
+    def incomings(q):
+        if q is not m:
+            raise Unsupported("incomings_fn of a module outside the iteration's frame")
+        return list(ins)
+    loc = {"fold_idx": fold_idx, "in_fold_idx": in_fold_idx, "cur_module_id": cur, "incomings_fn": Builtin("incomings_fn", incomings)}
+    vc.assume(to_z3(nf) == 1 if folds_ok else to_z3(nf) > 1)
+    exc, _ = vc.raises(lambda: vc.run_loop_body(f"{FO}:build_unfold_index_info", loc, m, loop=0))
+    if not folds_ok:
+        vc.ensure("folded_module_refused", exc == "ValueError")
+        vc.ensure("nothing_written_on_refusal", fold_idx.written == [] and in_fold_idx.written == [])
+        return
+    vc.ensure("no_exception", exc is None)
+    fw, iw = fold_idx.written, in_fold_idx.written
+    ok = len(fw) == 1 and fw[0][0] is m and isinstance(fw[0][1], tuple) and len(fw[0][1]) == 2
+    vc.ensure("exactly_the_module_located", ok)
+    if ok:
+        vc.ensure("module_located_at_counter_slice_0", z3.And(to_z3(fw[0][1][0]) == to_z3(cur), to_z3(fw[0][1][1]) == 0))
+    ok = len(iw) == 1
+    vc.ensure("one_index_table_written", ok)
+    if ok:
+        vc.ensure("index_table_keyed_by_the_counter", to_z3(iw[0][0]) == to_z3(cur))
+        table = iw[0][1]
+        shape_ok = len(table) == 1 and len(table[0]) == arity
+        vc.ensure("table_is_one_row_with_one_entry_per_input", shape_ok)
+        if shape_ok and arity:
+            vc.ensure("entries_are_the_locations_of_the_inputs_in_order",
+                      z3.And(*[z3.And(to_z3(e[0]) == to_z3(l[0]), to_z3(e[1]) == to_z3(l[1])) for e, l in zip(table[0], locs)]))
+    vc.ensure("counter_advances_by_one", to_z3(loc["cur_module_id"]) == to_z3(cur) + 1)
+
+
+for _a in range(4):
+    obligation(f"C02.build_unfold_index_info.step.arity{_a}", "C02", [f"{FO}:build_unfold_index_info"])((lambda a: lambda vc: _ustep(vc, a, True))(_a))
+obligation("C02.build_unfold_index_info.step.already_folded", "C02", [f"{FO}:build_unfold_index_info"])(lambda vc: _ustep(vc, 1, False))
+
+
+def _usuffix(vc, n_out):
+    mk = lambda n: Opaque(n, {"__identity_eq__": True})
+    outs = [mk(f"out{i}") for i in range(n_out)]
+    known, locs = {}, []
+    for o in outs:
+        f, s = vc.int(f"fold_of_{o.name}", lo=0), vc.int(f"slice_of_{o.name}", lo=0)
+        known[o] = (f, s)
+        locs.append((f, s))
+    fold_idx, in_fold_idx = GuardedMap("fold_idx", known), GuardedMap("in_fold_idx", {})
+    ordering_ls = [mk("some_module")]
+    loc = {"fold_idx": fold_idx, "in_fold_idx": in_fold_idx, "ordering_ls": ordering_ls, "outputs": list(outs), "cur_module_id": vc.int("cur_module_id", lo=0)}
+    kind, info = vc.run_suffix(f"{FO}:build_unfold_index_info", loc, loop=0)
+    vc.ensure("returns", kind == "return")
+    if kind != "return":
+        return
+    ofi = list(vc.I.B.iterate(vc.I, vc.attr(info, "out_fold_idx")))
+    ok = len(ofi) == n_out
+    vc.ensure("one_location_per_output", ok)
+    if ok:
+        vc.ensure("output_locations_in_declared_order", z3.And(*[z3.And(to_z3(a[0]) == to_z3(b[0]), to_z3(a[1]) == to_z3(b[1])) for a, b in zip(ofi, locs)], True))
+    vc.ensure("info_holds_the_ordering_and_tables", vc.attr(info, "ordering") is ordering_ls and vc.attr(info, "in_fold_idx") is in_fold_idx)
+    vc.ensure("nothing_written_after_the_loop", fold_idx.written == [] and in_fold_idx.written == [])
+
+
+for _n in (1, 2, 3):
+    obligation(f"C02.build_unfold_index_info.suffix.outputs{_n}", "C02", [f"{FO}:build_unfold_index_info"])((lambda n: lambda vc: _usuffix(vc, n))(_n))
